@@ -158,6 +158,46 @@ VH_EXPORT int vp_h07c_ts(const unsigned char* in, unsigned char* out) {
 	}
 	return mismatch_ok(v, o, rc, pos, unchanged);
 }
+// ---- H07c, longer inputs: the 10-byte (timestamp 64) and 15-byte (timestamp 96) layouts do not fit the 9-byte bound above.
+// in[0] = n (<= 16), in[1] = policy, in[2..18) = bytes; the driver pins the header to an ext/fixext of type -1.
+VH_EXPORT int va_h07c_ts16(const unsigned char* in) { return in[0] <= 16; }
+// F5 class: a timestamp carried in the 12-byte layout (ext 8 or ext 16 header with length 12, type -1)
+static inline size_t ts96_hdr(const unsigned char* b) { if (b[0] == 0xC7 && b[1] == 12 && b[2] == 0xFF) return 3; if (b[0] == 0xC8 && b[1] == 0 && b[2] == 12 && b[3] == 0xFF) return 4; return 0; }
+VH_EXPORT int vk_h07c_ts16(const unsigned char* in) { return (in[0] >= 4 && ts96_hdr(in + 2)) ? 1 : 0; }
+VH_EXPORT int vp_h07c_ts16(const unsigned char* in, unsigned char* out) {
+	In v; v.n = in[0] <= 16 ? in[0] : 16; v.pol = in[1] & 3; v.b = in + 2; v.prev = in;
+	SerializationOptions opt = options(v.pol);
+	CMsgPackStringReader r(std::string_view(reinterpret_cast<const char*>(v.b), v.n), opt);
+	verif_symbolic_phase();
+	CBinTimestamp ts(0x1234, 77);
+	int rc = outcome([&] { return r.ReadValue(ts); });
+	size_t pos = r.GetPosition();
+	out[0] = (unsigned char)rc; out[1] = (unsigned char)pos; vh::wr(out + 2, ts.Seconds); vh::wr(out + 10, ts.Nanoseconds);
+	const bool unchanged = ts.Seconds == 0x1234 && ts.Nanoseconds == 77;
+	if (v.n == 0) return rc == RC_PARSING;
+	mp::Obj o = mp::decode(v.b, v.n);
+	if (o.kind == mp::Truncated) return (rc == RC_PARSING || (rc == RC_MISMATCH && !(v.pol & 1))) && unchanged;
+	if (o.kind == mp::Timestamp) return rc == vh::OK && ts.Seconds == o.ts_sec && (uint32_t)ts.Nanoseconds == o.ts_nsec && pos == o.hdr + o.len;
+	if (o.kind == mp::Ext && o.ext_type == -1) {
+		if (o.len > v.n - o.hdr) return rc == RC_PARSING || (rc == RC_MISMATCH && !(v.pol & 1));
+		return rc == RC_PARSING || mismatch_ok(v, o, rc, pos, unchanged);
+	}
+	return mismatch_ok(v, o, rc, pos, unchanged);
+}
+// the recorded deviation F5 pinned down exactly: a complete 12-byte timestamp is decoded as seconds(64), nanoseconds(32)
+VH_EXPORT int va_h07c_ts16_f5(const unsigned char* in) { return in[0] <= 16 && vk_h07c_ts16(in) == 1; }
+VH_EXPORT int vp_h07c_ts16_f5(const unsigned char* in, unsigned char* out) {
+	size_t n = in[0] <= 16 ? in[0] : 16; const unsigned char* b = in + 2;
+	SerializationOptions opt = options(in[1] & 3);
+	CMsgPackStringReader r(std::string_view(reinterpret_cast<const char*>(b), n), opt);
+	verif_symbolic_phase();
+	CBinTimestamp ts(0x1234, 77);
+	int rc = outcome([&] { return r.ReadValue(ts); });
+	out[0] = (unsigned char)rc; vh::wr(out + 2, ts.Seconds); vh::wr(out + 10, ts.Nanoseconds);
+	size_t h = ts96_hdr(b);
+	if (n < h + 12) return rc == RC_PARSING;        // (the target may already hold the seconds read before the truncation was noticed)
+	return rc == vh::OK && r.GetPosition() == h + 12 && (uint64_t)ts.Seconds == mp::be(b + h, 8) && (uint32_t)ts.Nanoseconds == (uint32_t)mp::be(b + h + 8, 4);
+}
 // F5 class pinned down: a 12-byte timestamp is decoded as seconds(64) then nanoseconds(32) - and nothing else is tolerated
 VH_EXPORT int va_h07c_ts_f5(const unsigned char* in) { return va_h07(in) && vk_h07c_ts(in) == 1; }
 VH_EXPORT int vp_h07c_ts_f5(const unsigned char* in, unsigned char* out) {
@@ -195,6 +235,8 @@ VH_EXPORT int vp_h07b_bin(const unsigned char* in, unsigned char* out) { return 
 //@ OBL {"assume": "va_h07_len", "in": 20, "out": 24, "unwind": 12, "bounds": "every byte string of length <= 9 under ThrowError for mismatching kinds (Skip of a mismatching container: C05)", "name": "h07b_map", "family": "h07b", "prop": "vp_h07b_map", "desc": "length header reader (map): fix/8/16/32 forms, declared length vs available bytes", "recursion": {"SkipValueImpl": 1, "total_len": 1}, "cassume": ["(in[1] & 1) == 0 || !((in[2] >= 0x80 && in[2] <= 0x9f) || (in[2] >= 0xdc && in[2] <= 0xdf))"], "unwind_fn": {"SkipValueImpl": 1}}
 //@ OBL {"assume": "va_h07", "in": 20, "out": 24, "unwind": 12, "bounds": "every byte string of length <= 9 whose first byte is not an array/map header, both policies symbolic, previous target value symbolic", "name": "h07b_bin", "family": "h07b", "prop": "vp_h07b_bin", "desc": "length header reader (bin): fix/8/16/32 forms, declared length vs available bytes", "recursion": {"SkipValueImpl": 1, "total_len": 1}, "unwind_fn": {"SkipValueImpl": 1}}
 //@ OBL {"assume": "va_h07", "in": 20, "out": 24, "unwind": 12, "bounds": "every byte string of length <= 9 whose first byte is not an array/map header, both policies symbolic, previous target value symbolic", "name": "h07c_ts", "family": "h07c_ts", "prop": "vp_h07c_ts", "known": "vk_h07c_ts", "desc": "ReadValue(CBinTimestamp&): fixext4/fixext8/ext8(12) type -1 per spec", "recursion": {"SkipValueImpl": 1, "total_len": 1}, "unwind_fn": {"SkipValueImpl": 1}, "mem_gb": 28}
+//@ OBL {"name": "h07c_ts16", "family": "h07c_ts16", "prop": "vp_h07c_ts16", "assume": "va_h07c_ts16", "known": "vk_h07c_ts16", "in": 18, "out": 24, "unwind": 12, "unwind_fn": {"SkipValueImpl": 1}, "recursion": {"SkipValueImpl": 1, "total_len": 1}, "cassume": ["(in[2] == 0xd6 || in[2] == 0xd7 || in[2] == 0xd8 || in[2] == 0xc7 || in[2] == 0xc8) && (in[2] >= 0xd4 ? in[3] == 0xff : (in[2] == 0xc7 ? in[4] == 0xff : in[5] == 0xff))"], "bounds": "every byte string of length <= 16 that starts with a fixext4/8/16, ext8 or ext16 header of type -1 (timestamp family), both policies", "desc": "ReadValue(CBinTimestamp&): timestamp 32/64/96 layouts incl. non-canonical ext8/ext16 carriers, sizes the spec does not define, truncations"}
+//@ OBL {"name": "h07c_ts16_f5", "only_if_known": "F5r", "prop": "vp_h07c_ts16_f5", "assume": "va_h07c_ts16_f5", "in": 18, "out": 24, "unwind": 12, "unwind_fn": {"SkipValueImpl": 1}, "recursion": {"SkipValueImpl": 1}, "bounds": "every input of length <= 16 starting with C7 0C FF or C8 00 0C FF", "desc": "known finding F5 (reader side) pinned down: 12-byte timestamp decoded as seconds(64), nanoseconds(32) - nothing else tolerated"}
 // vectors from tests/unit_tests/msgpack_tests/msgpack_reader_tests.cpp
 //@ VEC * 0200d080000000000000000000000000000000
 //@ VEC * 0300d1ffce0000000000000000000000000000
